@@ -3,6 +3,10 @@
 package lab
 
 import (
+	"time"
+	"crypto/tls"
+	"bufio"
+	"sync"
 	"encoding/base64"
 	"fmt"
 	"net"
@@ -195,6 +199,65 @@ func runC06(c RTCase) (fails []vstat.Failure) {
 			return fails
 		}
 	}
+	if c.Crowd > 0 && (c.Cfg.Upstream == "P" || c.Cfg.Upstream == "T") && !c.Cfg.MITM {
+		fails = append(fails, e.c06Crowd(px, c, id)...)
+	}
+	return fails
+}
+
+// c06Crowd: simultaneous CONNECTs for two different targets through the same upstream proxy.
+func (e *rtEnv) c06Crowd(px *ProxyInst, c RTCase, id int64) (fails []vstat.Failure) {
+	up := e.peers[c.Cfg.Upstream]
+	since := up.RequestCount()
+	start := make(chan struct{})
+	var wg sync.WaitGroup
+	for i := 0; i < c.Crowd; i++ {
+		wg.Add(1)
+		go func(i int) {
+			defer wg.Done()
+			name := []string{"A", "B"}[i%2]
+			host, origin := e.hostOf(name)
+			target := net.JoinHostPort(host, origin.Port)
+			tc, err := Dial(px.Addr)
+			if err != nil {
+				return
+			}
+			defer tc.Close()
+			tc.SetDeadline(time.Now().Add(15 * time.Second))
+			var conn net.Conn = tc
+			if px.TLSListener {
+				t := tls.Client(tc, &tls.Config{RootCAs: e.ca.Pool, ServerName: "127.0.0.1"})
+				if t.Handshake() != nil {
+					return
+				}
+				conn = t
+			}
+			<-start
+			fmt.Fprintf(conn, "CONNECT %s HTTP/1.1\r\nHost: %s\r\nX-Vid: %d-crowd%d\r\n\r\n", target, target, id, i)
+			ReadResponse(bufio.NewReader(conn), "CONNECT")
+		}(i)
+	}
+	time.Sleep(5 * time.Millisecond)
+	close(start)
+	wg.Wait()
+	time.Sleep(2 * time.Millisecond)
+	for _, r := range up.RequestsSince(since) {
+		if r.Msg == nil || r.Msg.Method != "CONNECT" || !strings.HasPrefix(r.Msg.First("X-Vid"), fmt.Sprintf("%d-crowd", id)) {
+			continue
+		}
+		th, tp, err := net.SplitHostPort(r.Msg.Target)
+		if err != nil {
+			continue
+		}
+		var want []string
+		if u, p, ok := e.refCredMatch(c.Cfg.Creds, th, tp); ok {
+			want = []string{"Basic " + b64(u+":"+p)}
+		}
+		if got := r.Msg.Get("Authorization"); fmt.Sprint(got) != fmt.Sprint(want) {
+			fails = append(fails, vstat.Failf("C06:connect:crowd:site-credentials", "of %d simultaneous CONNECTs the one for %s reached the upstream proxy with Authorization %q; the credentials table selects %q for that target (config %+v)", c.Crowd, r.Msg.Target, got, want, c.Cfg))
+			break
+		}
+	}
 	return fails
 }
 
@@ -225,7 +288,11 @@ func classifyC06(c RTCase) (bool, string, []string) {
 var propC06 = vstat.Prop[RTCase]{Name: "TestC06Credentials",
 	Gen: func(t *rapid.T) RTCase {
 		cfg := genRTConfig(t, true)
-		return RTCase{Cfg: cfg, Reqs: genRTReqs(t, true, cfg.MITM)}
+		c := RTCase{Cfg: cfg, Reqs: genRTReqs(t, true, cfg.MITM)}
+		if (cfg.Upstream == "P" || cfg.Upstream == "T") && !cfg.MITM && rapid.Bool().Draw(t, "crowd") {
+			c.Crowd = rapid.SampledFrom([]int{4, 16, 48}).Draw(t, "crowdsize")
+		}
+		return c
 	},
 	Run: runC06, Classify: classifyC06}
 
